@@ -26,12 +26,24 @@ class ModuleIndex:
         self.bases = {}  # cls -> [base names]
         self.imports = {}  # alias -> dotted module or module.attr
         self.assigns = {}  # module-level NAME = <expr>
+        self.nested = {}  # Outer.Inner -> Inner
         for n in self.tree.body:
             if isinstance(n, (ast.FunctionDef, ast.AsyncFunctionDef)):
                 self.functions[n.name] = n
             elif isinstance(n, ast.ClassDef):
                 self.classes[n.name] = n
                 self.bases[n.name] = [ast.unparse(b) for b in n.bases]
+                # nested classes are indexed under their simple name and as Outer.Inner
+                for inner in n.body:
+                    if isinstance(inner, ast.ClassDef):
+                        self.classes[inner.name] = inner
+                        self.classes[f"{n.name}.{inner.name}"] = inner
+                        self.bases[inner.name] = self.bases[f"{n.name}.{inner.name}"] = [ast.unparse(b) for b in inner.bases]
+                        self.nested[f"{n.name}.{inner.name}"] = inner.name
+                        for m in inner.body:
+                            if isinstance(m, (ast.FunctionDef, ast.AsyncFunctionDef)):
+                                self.methods[(inner.name, m.name)] = m
+                                self.methods[(f"{n.name}.{inner.name}", m.name)] = m
                 for m in n.body:
                     if isinstance(m, (ast.FunctionDef, ast.AsyncFunctionDef)):
                         # property setters etc. overwrite: keep the first (getter) unless it's a setter
@@ -54,7 +66,7 @@ class ModuleIndex:
     def find(self, qualname):
         if "." in qualname:
             cls, name = qualname.rsplit(".", 1)
-            return self.methods.get((cls, name))
+            return self.methods.get((cls, name)) or self.methods.get((cls.split(".")[-1], name))
         return self.functions.get(qualname)
 
     def segment(self, node):
